@@ -492,6 +492,43 @@ impl VisitMut for Marker {
     }
 }
 
+/// R6b: `E.for_each(|P| BODY)` -> `for P in E BODY` (same iteration, same body; done before loops are numbered so that
+/// the new loop can carry an invariant). Only closures whose body has no `return` are converted.
+pub struct ForEach {
+    pub log: Vec<serde_json::Value>,
+}
+struct HasReturn(bool);
+impl<'ast> syn::visit::Visit<'ast> for HasReturn {
+    fn visit_expr_return(&mut self, _: &'ast ExprReturn) { self.0 = true; }
+}
+impl VisitMut for ForEach {
+    fn visit_expr_mut(&mut self, e: &mut Expr) {
+        visit_mut::visit_expr_mut(self, e);
+        if let Expr::MethodCall(m) = e {
+            if m.method == "for_each" && m.args.len() == 1 {
+                if let Expr::Closure(c) = &m.args[0] {
+                    if c.inputs.len() == 1 {
+                        let mut hr = HasReturn(false);
+                        syn::visit::Visit::visit_expr(&mut hr, &c.body);
+                        if !hr.0 {
+                            let pat = &c.inputs[0];
+                            let recv = &m.receiver;
+                            let body = &c.body;
+                            let blk: Block = match &**body {
+                                Expr::Block(b) => b.block.clone(),
+                                other => parse_quote!({ #other; }),
+                            };
+                            let ne: Expr = parse_quote!(for #pat in #recv #blk);
+                            self.log.push(json!({"rule": "R6", "src_line": line_of(m.method.span()), "before": norm(&e.to_token_stream()), "after": "for <pat> in <receiver> { <closure body> }"}));
+                            *e = ne;
+                        }
+                    }
+                }
+            }
+        }
+    }
+}
+
 /// R11: closures. Pass 0 (before markers): collects closure expressions in pre-order; optionally replaces the n-th one.
 pub struct Closures {
     pub found: Vec<ExprClosure>,
